@@ -37,7 +37,8 @@ def check_o1(ctx) -> None:
     rets = [r for r in ast.walk(calc.node) if isinstance(r, ast.Return)]
     ctx.require(len(rets) == 1, 'calculate_cost_MUSD: single return expected')
     try:
-        r = Translator().tr(rets[0].value)
+        from gxstat.inline import inline_sequential
+        r = Translator().tr(inline_sequential(rets[0].value, rets[0]))          # over named intermediates
     except Unsupported as e:
         raise AnalysisError(str(e))
     m = Rat.atom('meters')
